@@ -15,7 +15,7 @@ import (
 )
 
 var goagNames = []string{"client.go", "components.go", "handler.go", "router.go", "spec_file.go"}
-var userNames = []string{"impl.go", "README.md", "client_test.go", "zz.go", "sub/keep.go", "components_test.go", ".gitignore"}
+var userNames = []string{"impl.go", "README.md", "client_test.go", "zz.go", "sub/keep.go", "components_test.go", ".gitignore", ".goag.yaml", "openapi.yaml"}
 var tornFracs = [][2]int{{1, 2}, {0, 1}, {99, 100}, {1, 4}}
 
 type fresh struct {
@@ -51,6 +51,8 @@ type c19step struct {
 type c19plan struct {
 	Mode      int
 	SpecInOut bool
+	RelPaths  bool // the generator is run from the parent directory with relative paths
+	UserCfg   bool // the user keeps a .goag.yaml (and an unrelated openapi.yaml) in the out dir that no invocation is pointed at
 	Steps     []c19step
 }
 
@@ -182,6 +184,8 @@ func (e *c19env) decode(t *tape.Tape) c19plan {
 	}
 	all := usable(len(e.alphabet))
 	p.SpecInOut = t.Choose(2, "spec-in-outdir") == 1
+	p.UserCfg = !p.SpecInOut && t.Choose(2, "user-config-in-outdir") == 1
+	p.RelPaths = t.Choose(2, "relative-paths") == 1
 	n := 1 + t.Choose(8, "len")
 	for i := 0; i < n; i++ {
 		switch k := t.Choose(10, "op"); {
@@ -215,6 +219,13 @@ type c19outcome struct {
 }
 
 func userContent(name string, v int) string {
+	switch name {
+	case ".goag.yaml":
+		// a config file the user keeps next to the generated code but does NOT pass to this invocation
+		return "cors:\n  enable: true\nimports:\n  - value: github.com/goccy/go-json\n    alias: json\n"
+	case "openapi.yaml":
+		return "openapi: 3.0.3\ninfo: {title: not-the-spec-of-this-invocation, version: 9.9.9}\npaths: {}\n"
+	}
 	return fmt.Sprintf("// user file %s, version %d\npackage test\n", name, v)
 }
 
@@ -244,6 +255,10 @@ func (e *c19env) execC19(p c19plan) (o c19outcome) {
 	writeUser("sub/keep.go", userContent("sub/keep.go", 0))
 	// a hand-written file of the generated package that imports third-party packages under std names
 	writeUser("handler_impl.go", siblingSource("test"))
+	if p.UserCfg {
+		writeUser(".goag.yaml", userContent(".goag.yaml", 0))
+		writeUser("openapi.yaml", userContent("openapi.yaml", 0))
+	}
 	lastInv := -1
 	cleanInv := -1 // D is known to reflect this invocation exactly
 	tornPending := false
@@ -282,7 +297,7 @@ func (e *c19env) execC19(p c19plan) (o c19outcome) {
 				user[".goag.yaml"] = inv.Config
 			}
 		}
-		s := gencore.Sched{Tape: tape.Zero(), FaultAt: -1}
+		s := gencore.Sched{Tape: tape.Zero(), FaultAt: -1, RelPaths: p.RelPaths}
 		if st.Fault {
 			s.FaultAt, s.Kind = st.At, st.Kind
 			s.TornNum, s.TornDen = tornFracs[st.Torn][0], tornFracs[st.Torn][1]
@@ -416,6 +431,9 @@ func (e *c19env) execC19(p c19plan) (o c19outcome) {
 			}
 		case "user_write":
 			n := userNames[st.File]
+			if p.SpecInOut && (n == ".goag.yaml" || n == "openapi.yaml") {
+				n = "impl.go"
+			}
 			writeUser(n, userContent(n, st.How+1))
 			trace("%s user writes %s (v%d)", label, n, st.How+1)
 			o.logParts = append(o.logParts, "uw", n)
